@@ -38,6 +38,9 @@ def _scores(tier):
                                                                                          notes=[("r0", 0, 4, "C", None, 4, 1, 1), ("r1", 4, 4, "D", None, 4, 1, 1), ("r2", 8, 6, "E", None, 4, 1, 1),
                                                                                                 ("r3", 14, 4, "F", None, 4, 1, 1), ("r4", 18, 4, "G", None, 4, 1, 1)],
                                                                                          key=(0, "major"), measures=[(0, 8), (8, 14), (14, 22)])))
+    out.append(("first_bar_opens_with_an_eighth_rest", lambda: G.build_part("P1", 4, notes=[("n0", 2, 2, "C", None, 4, 1, 1), ("n1", 4, 4, "D", None, 4, 1, 1), ("n2", 8, 8, "E", None, 4, 1, 1),
+                                                                                           ("n3", 16, 8, "F", None, 4, 1, 1), ("n4", 24, 8, "G", None, 4, 1, 1)],
+                                                                         rests=[("r0", 0, 2, 1, 1)], key=(0, "major"), measures=[(0, 16), (16, 32)])))
     if tier == "thorough":
         out.append(("grace", lambda: G.build_part("P1", 4, notes=[("n0", 0, 8, "C", None, 4, 1, 1), ("n1", 8, 8, "D", None, 4, 1, 1)], graces=[("g0", 8, "E", None, 4, 1, 1, "n1")], measures=[(0, 16)])))
     return out
@@ -135,6 +138,24 @@ def bounded(b):
                     ks1 = sorted((k.fifths, k.mode) for k in part.iter_all(sc.KeySignature))
                     ks2 = sorted((k.fifths, k.mode) for k in spart2.iter_all(sc.KeySignature))
                     b.case("match/time_and_key_signatures_at_the_bar_where_they_were_written", ts1 == ts2 and ks1 == ks2, case, "signatures %r %r, expected %r %r" % (ts2, ks2, ts1, ks1))
+                    # second generation under ANOTHER clock: the loaded performance carries ticks of the first file; saving it with a different
+                    # ppq/mpq must still write the same seconds
+                    ppq2, mpq2 = (480, 500000) if (ppq, mpq) != (480, 500000) else (960, 600000)
+                    fn2 = os.path.join(d, "y.match")
+                    case2 = dict(case, resaved_with=[ppq2, mpq2])
+                    ok, _ = b.guard("match/save_no_exception", case2, lambda: pt.save_match(al2, pp2, score2.parts[0], fn2, mpq=mpq2, ppq=ppq2, assume_unfolded=True))
+                    if ok:
+                        ok, res2 = b.guard("match/load_no_exception", case2, lambda: pt.load_match(fn2))
+                        if ok:
+                            pp3 = res2[0].performedparts[0]
+                            first = {n["id"]: n for n in pp2.notes}
+                            tick2 = mpq2 / (1e6 * ppq2)
+                            bad = None
+                            for n in pp3.notes:
+                                m = first.get(n["id"])
+                                if m is None or abs(n["note_on"] - m["note_on"]) > tick2 or abs(n["note_off"] - m["note_off"]) > tick2:
+                                    bad = bad or "note %s saved at %r..%r s comes back at %r..%r s" % (n["id"], m and m["note_on"], m and m["note_off"], n["note_on"], n["note_off"])
+                            b.case("match/resaving_under_another_clock_keeps_the_seconds", bad is None and (pp3.ppq, pp3.mpq) == (ppq2, mpq2), case2, bad or "clock %r" % ((pp3.ppq, pp3.mpq),))
                 finally:
                     import shutil
                     shutil.rmtree(d, ignore_errors=True)
